@@ -543,7 +543,8 @@ class Builder:
                 if q.endswith('()'):
                     q = q[:-2]
                 out.append(q)
-        out = [q for q in out if q]
+        from .model import EXC_ALIASES
+        out = [EXC_ALIASES.get(q, q) for q in out if q]
         return sorted(set(out)) or [ANY]
 
     def _handler_tokens(self) -> List[str]:
